@@ -78,6 +78,11 @@ pub fn generate(seed: u64, index: u64, thorough: bool) -> Scenario {
             },
         });
     }
+    // concurrent callers (own PRNG stream: every other scenario stays as it was)
+    let mut r2 = Rng::new(mix(seed, "C10-concurrent", index));
+    if r2.chance(if thorough { 0.12 } else { 0.08 }) {
+        make_concurrent(&mut sc, &mut r2);
+    }
     sc
 }
 
@@ -100,7 +105,23 @@ fn exec_t<T: Sc, F: Factory<T>>(sc: &Scenario) -> RunReport {
     for (pass, fill) in fills.iter().enumerate() {
         alloc::set_fill(*fill);
         let mut sub = RunReport::default();
-        one_pass::<T, F>(sc, &mut sub, pass == 0);
+        if sc.variant == "concurrent" {
+            // the whole pass (script, concurrent callers, the oracle's fresh problems) runs
+            // inside the shuttle runtime under one seeded schedule
+            let scc = sc.clone();
+            let first = pass == 0;
+            match in_shuttle(sc.sched.shuttle_seed, move || {
+                let mut r = RunReport::default();
+                one_pass::<T, F>(&scc, &mut r, first);
+                r
+            }) {
+                Ok(r) => sub = r,
+                Err(p) => sub.violate(sc, "PANIC", &format!("concurrent@{}", panic_site(&p)), p),
+            }
+            sub.probe("runs_with_concurrent_callers");
+        } else {
+            one_pass::<T, F>(sc, &mut sub, pass == 0);
+        }
         alloc::off();
         rep.executions += 1;
         rep.events += sub.events;
@@ -140,6 +161,7 @@ fn one_pass<T: Sc, F: Factory<T>>(sc: &Scenario, rep: &mut RunReport, first: boo
     let exec = Exec::new(&sc.sched);
     exec.install();
     let ctl = Arc::new(Ctl::new(sc.faults.clone()));
+    ctl.set_overlap(sc.variant == "concurrent");
     let mut r = Runner::<T, F>::start(sc, ctl.clone());
     if let Some(p) = &r.build_panic {
         rep.violate(sc, "PANIC", &format!("build@{}", panic_site(p)), p.clone());
@@ -179,6 +201,23 @@ fn one_pass<T: Sc, F: Factory<T>>(sc: &Scenario, rep: &mut RunReport, first: boo
                 rep.eat_bits(&f.nl_params);
             }
             Extra::WeightedData { bits, .. } => rep.eat_bits(bits),
+            Extra::Concurrent { reference, observed, .. } => {
+                for o in std::iter::once(&Ok(reference.clone())).chain(observed.iter()) {
+                    match o {
+                        Ok((s, j)) => {
+                            rep.eat_bits(&s.params);
+                            if let Some(b) = &s.resid {
+                                rep.eat_bits(b);
+                            }
+                            rep.eat(j.bits.is_some() as u64);
+                            if let Some(b) = &j.bits {
+                                rep.eat_bits(b);
+                            }
+                        }
+                        Err(e) => rep.eat_str(e),
+                    }
+                }
+            }
             Extra::Clone { snap, jac, .. } => {
                 rep.eat_bits(&snap.params);
                 if let Some(b) = &jac.bits {
@@ -348,6 +387,32 @@ fn one_pass<T: Sc, F: Factory<T>>(sc: &Scenario, rep: &mut RunReport, first: boo
                     }
                     if faulted {
                         had_failed_update = true;
+                    }
+                }
+            }
+            Op::ConcurrentQueries(_) => {
+                if let Extra::Concurrent { reference, observed, overlapped } = &st.extra {
+                    if !faulted {
+                        rep.probe(if *overlapped { "concurrent_queries_overlapped" } else { "concurrent_queries_serialised" });
+                        for (i, o) in observed.iter().enumerate() {
+                            match o {
+                                Ok((s, j)) => {
+                                    if s != &reference.0 || j != &reference.1 {
+                                        let what = if s != &reference.0 { "residuals/coefficients/parameters" } else { "Jacobian" };
+                                        rep.violate(sc, "UNSTABLE_QUERY", "ConcurrentQueries", format!("op {}: caller {i} of {} simultaneous callers saw a different {what} than a caller querying alone", st.op, observed.len()));
+                                    }
+                                }
+                                Err(p) => rep.violate(sc, "PANIC", &format!("ConcurrentQueries@{}", panic_site(p)), p.clone()),
+                            }
+                        }
+                        if let Some(pj) = &prev_jac {
+                            if pj != &reference.1 {
+                                rep.violate(sc, "UNSTABLE_QUERY", "Jacobian", format!("two Jacobian queries without an update in between differ (op {})", st.op));
+                            }
+                        }
+                        prev_jac = Some(reference.1.clone());
+                    } else {
+                        rep.probe("concurrent_queries_gated_by_fault");
                     }
                 }
             }
